@@ -555,10 +555,11 @@ func (pck *pebbleEngCheckpoint) Save(path string, notify chan struct{}) error {
 	if pck.pe.IsClosed() {
 		return errDBEngClosed
 	}
+	// the checkpoint copies the wal files at the end, so it can contain any write done
+	// before it returns. The caller can only be allowed to write again after that.
+	err := pck.pe.eng.Checkpoint(path)
 	if notify != nil {
-		time.AfterFunc(time.Millisecond*20, func() {
-			close(notify)
-		})
+		close(notify)
 	}
-	return pck.pe.eng.Checkpoint(path)
+	return err
 }
